@@ -1,5 +1,83 @@
-"""Compile-fail witnesses (type-level clauses of C05/C14). Filled in by witness/ crate; None for properties without witnesses."""
+"""Compile-fail witnesses (type-level clauses of C05/C14), thorough tier.
+
+The witness crate (/verif/witness) is compiled as doc-tests against the tree under analysis with `cargo +nightly test --doc`
+(the nightly toolchain enforces the error code of `compile_fail,E0xxx`).  Nothing is executed: failing programs never build,
+the twins are `no_run`.  A witness that starts compiling means a bound was relaxed: VIOLATION naming the witness.
+A twin that stops compiling means the witness environment is broken: UNDECIDED, never a violation.
+"""
+import hashlib
+import json
+import os
+import re
+import shutil
+import subprocess
+import tempfile
+
+VERIF = os.path.dirname(os.path.dirname(os.path.abspath(__file__)))
+WIT = os.path.join(VERIF, 'witness')
+EVID = os.path.join(VERIF, 'evidence')
+
+FOR = {
+    'C14': None,                      # all witnesses
+    'C05': {'W07', 'W08'},            # the future borrows the Desync; Desync is not Clone
+}
+
+WHAT = {
+    'W01': 'desync job borrowing a local', 'W02': 'future_desync job borrowing a local', 'W03': 'reference to the payload escaping sync',
+    'W04': 'Desync::new of a !Send value', 'W05': '!Send capture in sync', 'W06': '!Send result of sync', 'W07': 'drop(Desync) while a future_sync future is alive',
+    'W08': 'Desync::clone', 'W09': '!Send capture in desync', 'W10': '!Send result of try_sync', 'W11': 'pipe_in closure borrowing a local',
+    'W12': 'Arc<Desync<T>>: Send for a !Send T', 'W13': 'after job borrowing a local',
+}
 
 
 def run(pid, repo):
-    return None
+    if pid not in FOR:
+        return None
+    only = FOR[pid]
+    d = tempfile.mkdtemp(prefix='dsa-witness-', dir=os.environ.get('DSA_SCRATCH', '/var/tmp'))
+    lines, code = [], 0
+    try:
+        crate = os.path.join(d, 'witness')
+        shutil.copytree(WIT, crate, ignore=shutil.ignore_patterns('target'))
+        ct = open(os.path.join(crate, 'Cargo.toml')).read().replace('path = "/repo"', 'path = "%s"' % repo)
+        open(os.path.join(crate, 'Cargo.toml'), 'w').write(ct)
+        lock = os.path.join(repo, 'Cargo.lock')
+        if os.path.exists(lock):
+            shutil.copy(lock, os.path.join(crate, 'Cargo.lock'))
+        env = dict(os.environ)
+        env['CARGO_NET_OFFLINE'] = 'true'
+        env['CARGO_TARGET_DIR'] = os.path.join(VERIF, '.cache', 'witness-target')
+        r = subprocess.run(['cargo', '+nightly', 'test', '--doc', '--offline'], cwd=crate, env=env, capture_output=True, text=True)
+        out = r.stdout + r.stderr
+        res = {}
+        for m in re.finditer(r'test src/lib\.rs - (W\d+) \(line \d+\) - (compile fail|compile) \.\.\. (\w+)', out):
+            w, kind, verdict = m.group(1), m.group(2), m.group(3)
+            res[(w, 'witness' if kind == 'compile fail' else 'twin')] = verdict
+        if not res:
+            lines.append('UNDECIDED property=%s reason=witness crate did not build: %s' % (pid, out[-400:].replace('\n', ' ')))
+            return {'evidence': {'error': out[-1000:]}, 'lines': lines, 'code': 2}
+        ev = []
+        for (w, kind), verdict in sorted(res.items()):
+            if only is not None and w not in only:
+                continue
+            ev.append({'witness': w, 'kind': kind, 'what': WHAT.get(w, ''), 'result': 'failed-to-compile-as-required' if (kind == 'witness' and verdict == 'ok') else ('compiled-as-required' if verdict == 'ok' else 'UNEXPECTED')})
+            if verdict != 'ok':
+                if kind == 'witness':
+                    os.makedirs(os.path.join(EVID, 'violations'), exist_ok=True)
+                    h = hashlib.sha1(w.encode()).hexdigest()[:10]
+                    path = os.path.join(EVID, 'violations', '%s-W-%s.json' % (pid, h))
+                    with open(path, 'w') as f:
+                        json.dump({'property': pid, 'config': 'dev', 'repo': repo, 'instance': {'rule': 'W', 'key': w, 'verdict': 'violation', 'detail': 'witness %s (%s) now compiles (or fails with a different error): a bound that fences the unsafe code was relaxed' % (w, WHAT.get(w, '')), 'loc': 'witness/src/lib.rs'}}, f, indent=1)
+                    lines.append('VIOLATION property=%s replay=%s' % (pid, path))
+                    lines.append('  rule W, witness %s: a program that must be rejected (%s) is accepted by the compiler' % (w, WHAT.get(w, '')))
+                    code = 1
+                else:
+                    lines.append('UNDECIDED property=%s reason=twin of witness %s no longer compiles (witness environment broken)' % (pid, w))
+                    code = max(code, 2) if code != 1 else 1
+        n = len(ev)
+        if n < (4 if only else 26):
+            lines.append('UNDECIDED property=%s reason=only %d witness results parsed' % (pid, n))
+            code = max(code, 2) if code != 1 else 1
+        return {'evidence': ev, 'lines': lines, 'code': code}
+    finally:
+        shutil.rmtree(d, ignore_errors=True)
